@@ -24,6 +24,7 @@ type c06In struct {
 	Subj    c06Subject `json:"subject"`
 	Steps   []c06Hop   `json:"steps"`
 	Backend string     `json:"backend,omitempty"` // "" = in-memory double, "filestorage" = the real FileStorage on a temp directory
+	Rep     int        `json:"rep,omitempty"`     // repetition number of a history whose outcome is a race
 }
 
 // c06Result: one executed history, ready to be added to the writer (histories run in parallel, the
@@ -88,6 +89,42 @@ func c06RetryHistories() (ins []c06In, origins []string) {
 				ins = append(ins, c06In{Cfg: cfg, Subj: dns, Steps: []c06Hop{
 					{Op: "manage", Orc: all(c06Up(10, 1))}, {Op: "renew", Orc: p[0], More: p[1:]}, m}})
 				origins = append(origins, "retry", "retry", "retry")
+			}
+		}
+	}
+	return ins, origins
+}
+
+// c06CancelHistories: ObtainCertAsync / RenewCertAsync with a context that is already cancelled (the select
+// between the zero back-off timer and ctx.Done() is a race: each history is repeated 10 times per back-end), or
+// that the first failing issuer answer cancels (cancelled during the back-off), on both back-ends, followed by
+// manage. A reported success must leave a complete matching bundle; a reported context.Canceled is fine.
+func c06CancelHistories() (ins []c06In, origins []string) {
+	dns := c06Subjects[0]
+	up, dn := c06Orc(c06Up(20, 0)), c06Orc(c06Down)
+	m := c06Hop{Op: "manage", Orc: c06Orc(c06Up(90, 0))}
+	for _, backend := range []string{"", "filestorage"} {
+		for _, reuse := range []bool{false, true} {
+			cfg := c06Cfg{N: 1, Reuse: reuse, KeyType: "p256"}
+			reps := 5
+			if !reuse {
+				reps = 10
+			}
+			for rep := 0; rep < reps; rep++ {
+				ins = append(ins,
+					c06In{Cfg: cfg, Subj: dns, Backend: backend, Rep: rep, Steps: []c06Hop{
+						{Op: "obtain", Orc: up, Cancel: "pre"}, m}},
+					c06In{Cfg: cfg, Subj: dns, Backend: backend, Rep: rep, Steps: []c06Hop{
+						{Op: "manage", Orc: c06Orc(c06Up(10, 0))}, {Op: "renew", Force: true, Orc: up, Cancel: "pre"}, m}})
+				origins = append(origins, "cancel", "cancel")
+			}
+			for rep := 0; rep < 2; rep++ {
+				ins = append(ins,
+					c06In{Cfg: cfg, Subj: dns, Backend: backend, Rep: rep, Steps: []c06Hop{
+						{Op: "obtain", Orc: dn, More: []c06Oracle{up}, Cancel: "backoff"}, m}},
+					c06In{Cfg: cfg, Subj: dns, Backend: backend, Rep: rep, Steps: []c06Hop{
+						{Op: "manage", Orc: c06Orc(c06Up(10, 0))}, {Op: "renew", Force: true, Orc: dn, More: []c06Oracle{up}, Cancel: "backoff"}, m}})
+				origins = append(origins, "cancel", "cancel")
 			}
 		}
 	}
@@ -212,7 +249,7 @@ func c06Exec(in c06In, origin string) (res c06Result) {
 	issuances := 0
 	opsSeen := map[string]bool{}
 	symptom := "none"
-	faultedSteps, faultsHit, retrySteps := 0, 0, 0
+	faultedSteps, faultsHit, retrySteps, cancelSteps := 0, 0, 0, 0
 	fwd, fwdSteps := true, 0
 	var prevSt []c06Entry
 	for si := range in.Steps {
@@ -274,6 +311,14 @@ func c06Exec(in c06In, origin string) (res c06Result) {
 		if len(h.More) > 0 {
 			retrySteps++
 		}
+		if h.Cancel != "" {
+			h.Ran = c06AttemptsRun(o)
+			e.Bool(true).Int(h.Ran)
+			cancelSteps++
+			hist(fmt.Sprintf("cancel=%s/attempts_run=%d/res=%d", h.Cancel, h.Ran, o.Res))
+		} else {
+			e.Bool(false)
+		}
 		c06EncObs(e, o)
 		obsAll = append(obsAll, o)
 		for _, ev := range o.logEnc {
@@ -318,7 +363,7 @@ func c06Exec(in c06In, origin string) (res c06Result) {
 		Desc: map[string]any{"class": class, "subject_kind": in.Subj.Kind, "issuers": in.Cfg.N, "reuse": in.Cfg.Reuse,
 			"policy_random": in.Cfg.Rnd, "keytype": in.Cfg.KeyType, "origin": origin, "steps": len(in.Steps),
 			"spelling_dirs_differ": bw.sLoad != bw.sSave, "symptom": symptom, "backend": in.Backend,
-			"faulted_steps": faultedSteps, "retrying_steps": retrySteps},
+			"faulted_steps": faultedSteps, "retrying_steps": retrySteps, "cancelled_steps": cancelSteps},
 		In: in, Obs: obsAll, Wire: e.String(),
 		Nontrivial: issuances >= 1 && len(in.Steps) >= 2, Key: string(key)}
 	return res
@@ -552,6 +597,9 @@ func c06Run(tier string, seed int64, outdir string, replay string) error {
 	// the retrying entry points: first attempt(s) fail at the issuers after the key was generated, a later one succeeds
 	ins2, or2 := c06RetryHistories()
 	ins, origins = append(ins, ins2...), append(origins, or2...)
+	// the retrying entry points under a cancelled context (config reload, shutdown, queued background job)
+	ins3, or3 := c06CancelHistories()
+	ins, origins = append(ins, ins3...), append(origins, or3...)
 	// storage errors inside the quarantine of a compromised key (forceRenew / moveCompromisedPrivateKey)
 	qbases, qtarget := c06QuarantineBases()
 	for bi, b := range qbases {
